@@ -4,9 +4,14 @@ Require Import QArith Qcanon List ZArith.
 Import ListNotations.
 Require Import LV.Base.CField LV.Base.QcI.
 Require Import LV.SelfCal.WeightModel LV.SelfCal.WeightProofs LV.SelfCal.WeightQI.
-Require Import LV.SelfCal.LsqModel LV.SelfCal.LsqProofs LV.SelfCal.NullGuards.
+Require Import LV.SelfCal.LsqModel LV.SelfCal.LsqProofs LV.SelfCal.LsqLinkModel LV.SelfCal.LsqLinkProofs.
+Require Import LV.SelfCal.GuardModel LV.SelfCal.GuardProofs.
 
-(* ---- the weight of every equation is the one computed from its own measurement ---- *)
+(* ---- the weight of every equation is the one computed from its own measurement ----
+   These theorems are about INDEX ALIGNMENT: which measurement w_vector[i] was computed from and
+   which element each consumer reads.  The weight function wt (1 / sqrt(sigma_nf^2 + sigma_tr^2 |m|^2))
+   is an abstract Section variable: its formula, and the same expression used as the chi-square
+   divisor, appear in no theorem (they are compared numerically by the white-box tie). *)
 (* form of the source with one running index and the per-system offset in solve_simple *)
 Theorem weights_aligned_thm : forall (M R : Type) (wt : M -> R) (r0 : R) (m0 : M)
   (sys : systems M) (s e : nat),
@@ -25,7 +30,8 @@ Theorem weights_aligned_single_system_thm : forall (M R : Type) (wt : M -> R) (r
 Proof. exact weights_aligned_single_system. Qed.
 Print Assumptions weights_aligned_single_system_thm.
 
-(* form of the source in which k restarts in every system (candidate D20) *)
+(* model variants documenting finding D20 (fixed in /repo): the form of the source in which k
+   restarted in every system and solve_simple read without offset *)
 Theorem weights_aligned_refuted_simple_thm :
   exists sys s e, (s < length sys)%nat /\ (e < length (nth s sys []))%nat /\
                   w_simple true false sys s e <> w_own sys s e.
@@ -54,7 +60,7 @@ Theorem weights_aligned_instance_thm :
 Proof. exact weights_aligned_instance. Qed.
 Print Assumptions weights_aligned_instance_thm.
 
-(* ---- degrees of freedom ---- *)
+(* ---- degrees of freedom and the verdict ---- *)
 Theorem dof_count_thm : forall (unknowns : Z) (eq_counts leak_counts : list Z),
   dof unknowns eq_counts leak_counts =
   (2 * (zsum eq_counts - Z.of_nat (length eq_counts) * unknowns) + zsum (map leak_term leak_counts))%Z.
@@ -70,36 +76,131 @@ Theorem dof_instances_thm : dof 7 [16%Z] [] = 18%Z /\ dof 5 [8; 8]%Z [4; 4]%Z = 
 Proof. exact dof_instances. Qed.
 Print Assumptions dof_instances_thm.
 
-(* ---- exact data: the weighted solution is the unweighted one, residual zero ---- *)
-Theorem exact_data_weight_free_thm : forall (K : CField) (N : K -> Qc),
+(* "if (df < 1) return 1.0;" (1.0 since fix D59): an exactly determined calibration has p-value 1
+   and is not rejected at any admissible limit (0 < limit <= 1), whatever the chi-square tail
+   function (a parameter: chisq_pvalue is not modelled) *)
+Theorem exactly_determined_never_rejected_thm : forall (tail : Z -> Qc -> Qc) (unknowns : Z) (k : nat)
+  (chisq limit : Qc), (limit <= 1)%Qc ->
+  pvalue_of tail (dof unknowns (repeat unknowns k) []) chisq = 1%Qc /\
+  rejected (pvalue_of tail (dof unknowns (repeat unknowns k) []) chisq) limit = false.
+Proof. exact exactly_determined_never_rejected. Qed.
+Print Assumptions exactly_determined_never_rejected_thm.
+
+(* ---- exact data with the weights as the code computes and reads them ----
+   weighted_system_simple / _auto (LsqLinkModel.v): row e of system s multiplied by the element of
+   calc_weights that solve_simple (w_offset + eq_count) / solve_auto (running counter) reads.  For
+   data that some x0 fits exactly, full column rank, and a weight function without zeros: x0 is
+   the only minimiser, the residual is zero, and the minimisers are those of the problem with all
+   weights 1.  The alignment theorem enters through "no row is multiplied by the calloc zero".
+   The rows themselves are a parameter (with measurement-error modelling they carry the V-matrix
+   factors of the current iteration): the statement is insensitivity to the WEIGHTS, not to V.
+   That the QR solve returns the minimiser is C19's subject. *)
+Theorem exact_data_simple_weights_as_computed_thm : forall (K : CField) (N : K -> Qc),
+  (forall z, (0 <= N z)%Qc) -> (forall z, N z = 0%Qc -> z = c0) -> N c0 = 0%Qc ->
+  forall (M : Type) (wt : M -> Qc), (forall m, wt m <> 0%Qc) -> M ->
+  forall (rows : nat -> nat -> list K * K) (sys : systems M) (s : nat) (x0 : list K),
+  (s < length sys)%nat ->
+  let ws := weighted_system_simple K M wt rows sys s in
+  consistent K ws x0 -> injective K ws x0 ->
+  cost K N ws x0 = 0%Qc /\ minimises K N ws x0 /\
+  (forall x, length x = length x0 -> minimises K N ws x -> x = x0) /\
+  (forall x, length x = length x0 -> (minimises K N ws x <-> minimises K N (unweighted K ws) x)).
+Proof. exact exact_data_simple_weights_as_computed. Qed.
+Print Assumptions exact_data_simple_weights_as_computed_thm.
+
+Theorem exact_data_auto_weights_as_computed_thm : forall (K : CField) (N : K -> Qc),
+  (forall z, (0 <= N z)%Qc) -> (forall z, N z = 0%Qc -> z = c0) -> N c0 = 0%Qc ->
+  forall (M : Type) (wt : M -> Qc), (forall m, wt m <> 0%Qc) -> M ->
+  forall (rows : nat -> nat -> list K * K) (sys : systems M) (x0 : list K),
+  let ws := weighted_system_auto K M wt rows sys in
+  consistent K ws x0 -> injective K ws x0 ->
+  cost K N ws x0 = 0%Qc /\ minimises K N ws x0 /\
+  (forall x, length x = length x0 -> minimises K N ws x -> x = x0) /\
+  (forall x, length x = length x0 -> (minimises K N ws x <-> minimises K N (unweighted K ws) x)).
+Proof. exact exact_data_auto_weights_as_computed. Qed.
+Print Assumptions exact_data_auto_weights_as_computed_thm.
+
+(* all hypotheses of the link theorem at Q[i]: two systems, weights 1/(m+1), the weights read for
+   the second system are those of its own measurements *)
+Theorem exact_data_link_hypotheses_satisfiable_thm :
+  (forall m, lk_wt m <> 0%Qc) /\ (1 < length lk_sys)%nat /\
+  consistent QIF lk_ws ex_x0 /\ injective QIF lk_ws ex_x0 /\
+  map (fun e => fst (fst e)) lk_ws = [Q2Qc (1 # 2); Q2Qc (1 # 3); Q2Qc (1 # 7)].
+Proof. exact exact_data_link_hypotheses_satisfiable. Qed.
+Print Assumptions exact_data_link_hypotheses_satisfiable_thm.
+
+(* ---- the algebra behind it, for an ARBITRARY list of (weight, row, right-hand side): generic
+        weighted least squares, not tied to the code (the weights here are free) ---- *)
+Theorem lsq_algebra_exact_data_weight_free_thm : forall (K : CField) (N : K -> Qc),
   (forall z, (0 <= N z)%Qc) -> (forall z, N z = 0%Qc -> z = c0) -> N c0 = 0%Qc ->
   forall (sys : list (eqn K)) (x0 : list K),
   consistent K sys x0 -> weights_nonzero K sys -> injective K sys x0 ->
   cost K N sys x0 = 0%Qc /\ minimises K N sys x0 /\
   (forall x, length x = length x0 -> minimises K N sys x -> x = x0).
 Proof. exact exact_data_weight_free. Qed.
-Print Assumptions exact_data_weight_free_thm.
+Print Assumptions lsq_algebra_exact_data_weight_free_thm.
 
-Theorem weighted_equals_unweighted_thm : forall (K : CField) (N : K -> Qc),
+Theorem lsq_algebra_weighted_equals_unweighted_thm : forall (K : CField) (N : K -> Qc),
   (forall z, (0 <= N z)%Qc) -> (forall z, N z = 0%Qc -> z = c0) -> N c0 = 0%Qc ->
   forall (sys : list (eqn K)) (x0 x : list K),
   consistent K sys x0 -> weights_nonzero K sys -> injective K sys x0 -> length x = length x0 ->
   (minimises K N sys x <-> minimises K N (unweighted K sys) x).
 Proof. exact weighted_equals_unweighted. Qed.
-Print Assumptions weighted_equals_unweighted_thm.
+Print Assumptions lsq_algebra_weighted_equals_unweighted_thm.
 
-Theorem exact_data_hypotheses_satisfiable_thm :
+Theorem lsq_algebra_hypotheses_satisfiable_thm :
   consistent QIF ex_sys ex_x0 /\ weights_nonzero QIF ex_sys /\ injective QIF ex_sys ex_x0.
 Proof. exact exact_data_hypotheses_satisfiable. Qed.
-Print Assumptions exact_data_hypotheses_satisfiable_thm.
+Print Assumptions lsq_algebra_hypotheses_satisfiable_thm.
 
-(* ---- save / restore of the V matrices touches only allocated vectors (form with the test
-        of vnsm_v_matrices); the form that tests the address of the array element does not
-        (candidate D38) ---- *)
-Theorem v_matrices_safe_thm : forall stds, save_v_matrices true stds = Ok.
-Proof. exact v_matrices_safe. Qed.
-Print Assumptions v_matrices_safe_thm.
+(* ---- save_v_matrices / restore_v_matrices on checked memory (GuardModel.v): vectors and matrices
+        may be absent (NULL) in any pattern; offsets as the code computes them ---- *)
+(* save stays inside the buffer of measurement_count * systems * v_cells elements its caller
+   allocated, reads only inside existing matrices, never indexes a NULL vector; the buffer then
+   holds the existing matrices back to back *)
+Theorem save_v_matrices_safe_thm : forall (V : Type) (systems v_cells : nat) (stds : list (vvec V)) (buf : list V),
+  (forall vv, In vv stds -> wf_vvec V systems v_cells vv) ->
+  length buf = (length stds * systems * v_cells)%nat ->
+  save_v_matrices V systems v_cells stds buf =
+  MOk (flat_all V stds ++ skipn (length (flat_all V stds)) buf).
+Proof. exact save_v_matrices_safe. Qed.
+Print Assumptions save_v_matrices_safe_thm.
 
-Theorem v_matrices_safe_refuted_thm : exists stds, save_v_matrices false stds = NullDeref.
-Proof. exact v_matrices_safe_refuted. Qed.
-Print Assumptions v_matrices_safe_refuted_thm.
+(* restore after save gives back exactly the saved matrices, whatever was written into the same
+   matrices in between (the two walks compute the same offsets), inside all allocations *)
+Theorem v_matrices_roundtrip_thm : forall (V : Type) (systems v_cells : nat) (saved now : list (vvec V)) (buf : list V),
+  (forall vv, In vv saved -> wf_vvec V systems v_cells vv) ->
+  (forall vv, In vv now -> wf_vvec V systems v_cells vv) ->
+  Forall2 (same_shape V) saved now ->
+  length buf = (length saved * systems * v_cells)%nat ->
+  exists buf', save_v_matrices V systems v_cells saved buf = MOk buf' /\ length buf' = length buf /\
+               restore_v_matrices V systems v_cells now buf' = MOk saved.
+Proof. exact v_matrices_roundtrip. Qed.
+Print Assumptions v_matrices_roundtrip_thm.
+
+(* the vectors _vnacal_new_solve_init builds satisfy the well-formedness premise *)
+Theorem init_vvec_wf_thm : forall (V : Type) (systems v_cells : nat) (v0 : V) (m_error : bool)
+  (unknowns_per_system : nat) (eq_counts : list nat),
+  length eq_counts = systems ->
+  wf_vvec V systems v_cells (init_vvec V v_cells v0 m_error unknowns_per_system eq_counts).
+Proof. exact init_vvec_wf. Qed.
+Print Assumptions init_vvec_wf_thm.
+
+(* documents finding D38 (fixed in /repo): the function as it was, testing the address of the
+   array element instead of the vector, indexes a NULL vector *)
+Theorem save_v_before_D38_faults_thm :
+  exists stds buf, (forall vv, In vv stds -> wf_vvec nat 1 4 vv) /\ length buf = (length stds * 1 * 4)%nat /\
+                   save_v_matrices_before_D38 nat 1 4 stds buf = MNull.
+Proof. exact save_v_before_D38_faults. Qed.
+Print Assumptions save_v_before_D38_faults_thm.
+
+(* all premises of the round trip at once: no vector / vector with an absent matrix / two matrices *)
+Theorem v_matrices_instance_thm :
+  let saved := [None; Some [Some [1; 2]; None]; Some [Some [3; 4]; Some [5; 6]]]%nat in
+  let now := [None; Some [Some [0; 0]; None]; Some [Some [9; 9]; Some [8; 8]]]%nat in
+  (forall vv, In vv saved -> wf_vvec nat 2 2 vv) /\ (forall vv, In vv now -> wf_vvec nat 2 2 vv) /\
+  Forall2 (same_shape nat) saved now /\
+  save_v_matrices nat 2 2 saved (repeat 7%nat 12) = MOk [1; 2; 3; 4; 5; 6; 7; 7; 7; 7; 7; 7]%nat /\
+  restore_v_matrices nat 2 2 now [1; 2; 3; 4; 5; 6; 7; 7; 7; 7; 7; 7]%nat = MOk saved.
+Proof. exact v_matrices_instance. Qed.
+Print Assumptions v_matrices_instance_thm.
